@@ -60,7 +60,18 @@ KINDS = {
     "gy": (["a0", "a1", "b0", "b1", "c0", "c1"], lambda r: r["g"] + str(r["y"] % 2)),
     # per-row mapper over two sources (column + pipeline)
     "hp": (["ue", "uo", "ve", "vo"], lambda r: r["h"] + ("e" if (pv_of(r) // SCALE) % 2 == 0 else "o")),
+    # vectorised mappers that return a complete, correctly id-indexed Series whose ROWS ARE NOT IN THE POPULATION'S ORDER
+    # (the framework must attach the values to the simulants by label, never by position):
+    # split the population by value, label the parts, pd.concat them
+    "gcat": (["A", "B", "C"], lambda r: r["g"].upper()),
+    # sort internally by the value
+    "ysort": (["y0", "y1", "y2"], lambda r: "y%d" % (r["y"] % 3)),
+    # reversed
+    "hrev": (["ru", "rv"], lambda r: "r" + r["h"]),
+    # build a DataFrame, sort it by another column, return one of its columns
+    "xfr": (["small", "large"], lambda r: "small" if r["x"] < 5 * SCALE else "large"),
 }
+REORDERING = ("gcat", "ysort", "hrev", "xfr")
 AGGS = ["len", "count", "sumy", "sumx", "sumpv", "sumy_nosrc"]
 
 
@@ -237,6 +248,28 @@ def _run(case):
             b.results.register_stratification(name, c, excluded_categories=ex,
                                               mapper=lambda row: row["h"] + ("e" if int(row["pv"]) % 2 == 0 else "o"),
                                               is_vectorized=False, requires_columns=["h"], requires_values=["pv"])
+        elif kind == "gcat":
+            def split_concat(df):
+                known = ["c", "a", "b"]
+                parts = [df.loc[df["g"] == v, "g"].str.upper() for v in known]
+                parts.append(df.loc[~df["g"].isin(known), "g"].str.upper())
+                return pd.concat(parts)
+            b.results.register_stratification(name, c, excluded_categories=ex, mapper=split_concat, is_vectorized=True,
+                                              requires_columns=["g"])
+        elif kind == "ysort":
+            b.results.register_stratification(name, c, excluded_categories=ex,
+                                              mapper=lambda df: "y" + (df["y"].sort_values(ascending=False) % 3).astype(str),
+                                              is_vectorized=True, requires_columns=["y"])
+        elif kind == "hrev":
+            b.results.register_stratification(name, c, excluded_categories=ex, mapper=lambda df: "r" + df["h"].iloc[::-1],
+                                              is_vectorized=True, requires_columns=["h"])
+        elif kind == "xfr":
+            def frame_column(df):
+                tmp = df[["x", "y"]].copy()
+                tmp["label"] = tmp["x"].map(lambda v: "small" if v < 5 else "large")
+                return tmp.sort_values(["x", "y"], ascending=[False, True])["label"]
+            b.results.register_stratification(name, c, excluded_categories=ex, mapper=frame_column, is_vectorized=True,
+                                              requires_columns=["x", "y"])
         else:
             raise ValueError(kind)
 
@@ -534,7 +567,7 @@ class C16(Prop):
     n_thorough = 2000
     workers = 8
     case_timeout = 60
-    rule = ("each case is a whole simulation with a generated observer program (0-4 stratifications of 7 kinds, 1-5 adding / "
+    rule = ("each case is a whole simulation with a generated observer program (0-4 stratifications of 11 kinds, 4 of them with mapper output in another row order, 1-5 adding / "
             "concatenating observations over the four phases, exclusions from code and configuration, default / additional / "
             "excluded stratifications directly and through Observer configuration, filters, to_observe, 6 aggregators) over a "
             "random trajectory (births, untracking, value changes, optional unknown category); distinct by case hash; "
@@ -874,6 +907,8 @@ def tags(case, obs):
             t.append("excl-code-overrides-config")
         if "cats" in s:
             t.append("cats-override")
+        if s["kind"] in REORDERING:
+            t.append("mapper-output-in-other-row-order")
     if case["cfg_default"]:
         t.append("default-strats")
     for o in case["obs"]:
@@ -1181,6 +1216,19 @@ def boundary_cases():
     out.append(mk(6, 2, [S("pvs", ["p1"]), S("g")],
                   [Cc("rows_first", flt=[], cols=["pv"]), A("everyone_by_pvs", flt=[], add=["pvs"]), A("by_g", add=["g"]), Cc("rows_last", flt=[], cols=["pv"])],
                   order=[["s", 0], ["s", 1], ["o", 0], ["o", 1], ["o", 2], ["o", 3]], traj={"p_change": 0.3}, tseed=14))
+    # mappers whose (correct, id-indexed) output is not in the population's row order: values belong to simulants by LABEL.
+    # A plain count over one stratification still adds up under a positional mix-up; an aggregate over a column, an excluded
+    # category, a filter that removes simulants or a second stratification do not
+    for kind, ex in (("gcat", ["B"]), ("ysort", ["y1"]), ("hrev", ["rv"]), ("xfr", ["large"])):
+        out.append(mk(8, 3, [S(kind), S("g")],
+                      [A("cnt", add=[kind]), A("sx", add=[kind], agg="sumx", flt=[]), A("tracked_y", add=[kind], agg="sumy"),
+                       A("cross", add=[kind, "g"], flt=[["y", ">=", 2]]), Cc("rows", cols=["y"])],
+                      traj={"p_change": 0.3, "p_untrack": 0.2, "p_birth": 0.4, "max_births": 1}, tseed=21))
+        out.append(mk(7, 2, [S(kind, ex)], [A("cnt", add=[kind]), A("sy", add=[kind], agg="sumy_nosrc", when="time_step")],
+                      traj={"p_change": 0.4, "p_untrack": 0.3}, tseed=22))
+    out.append(mk(9, 2, [S("gcat"), S("ysort"), S("hrev"), S("xfr")],
+                  [A("all4", add=["gcat", "ysort", "hrev", "xfr"]), A("two", add=["ysort", "xfr"], agg="sumpv", flt=[])],
+                  traj={"p_change": 0.5}, tseed=23))
     # registration order: observations before stratifications, columns in a different order than the sorted names
     out.append(mk(5, 2, [S("xb"), S("g"), S("h2")], [A("n", add=["h2", "xb", "g"], agg="sumx")],
                   order=[["o", 0], ["s", 2], ["s", 0], ["s", 1]], traj={"p_change": 0.5}))
